@@ -90,6 +90,14 @@ def build_spec(sc, shard_no, slot, index, rng, port_base=12000):
                 sc = dict(sc, when="start")
             last = js["tasks"][t]["outputs"][-1]   # declared order == key-sorted order in every generated job
             faults = {t: {"when": sc["when"], "how": sc["how"], "ds": f"{t}.{last}"}}
+    if sc.get("ambiguous_names"):
+        # task and output names whose plain concatenation coincides: t1 + 10 = t11 + 0, t + 11 = t1 + 1 (every dataset is requested
+        # and consumed; a store keyed by the concatenation would hand one dataset out for the other)
+        def T(n):
+            return {"outputs": sorted(str(i) for i in range(n)), "static_ps": {"0": rng.randint(1, 9)}, "static_kw": {}, "needs_gpu": False, "returns_none": False}
+        js = {"tasks": {"t": T(13), "t1": T(11), "t11": T(1), "sink": {"outputs": ["0"], "static_ps": {}, "static_kw": {}, "needs_gpu": False, "returns_none": False}},
+              "edges": [["t1", "10", "sink", None, 0], ["t11", "0", "sink", None, 1], ["t", "11", "sink", None, 2], ["t1", "1", "sink", None, 3]],
+              "ext": [["t1", "10"], ["t11", "0"], ["t", "11"], ["t1", "1"], ["sink", "0"]], "order": ["t", "t1", "t11", "sink"], "shape": "ambiguous-names"}
     nh, nw = sc["shape"]
     from vlib.common import ports
     block, cport = ports.acquire()   # unique among all concurrently running checks; below the ephemeral range (32768+)
